@@ -703,6 +703,16 @@ def r10_2(ctx):
     ctx.ob("yaml:trial-answers-is-collection", okc, site(yt), "YAML trial accepts only collection-rooted first documents")
 
 
+def _is_parser_poll(lib, body, t):
+    """The call polls the libyaml parser: a same-crate method defined outside the chunker's file that returns
+    an io::Result and reaches unsafe_libyaml (recognised by shape, not by name)."""
+    f = fn_of(t) or {}
+    callee = lib.by_id.get(f.get("resolved") or f.get("def"))
+    if not (callee and callee.file != body.file and callee.local_ty(0).startswith("std::result::Result<") and "std::io::Error" in callee.local_ty(0)):
+        return False
+    return any((fn_of(tt) or {}).get("crate") == "unsafe_libyaml" for _, _, tt in Super(lib, callee, depth=2).calls())
+
+
 @rule("R05.5", 3, "the YAML chunker's capture buffer is emptied once per document (bounded by the largest document, not the stream)", ["C05"])
 def r05_5(ctx):
     lib = ctx.lib
@@ -740,12 +750,16 @@ def r05_5(ctx):
                 calls = [(bb, tt) for bb, tt in cn.calls() if sp["line"] <= tt["line"] <= sp["end_line"] and ((fn_of(tt) or {}).get("resolved") or (fn_of(tt) or {}).get("def")) in movers]
                 ok = len(calls) >= 1
                 if ok:
+                    # the cut point is an offset reported by the event itself (a method of the polled event)
                     off = trace(cn, calls[0][1]["args"][1])
-                    ok = bool(off.origin and off.origin[0] == "call" and (fn_of(off.origin[2]) or {}).get("name") in ("end_offset",))
+                    ok = False
+                    if off.origin and off.origin[0] == "call" and (fn_of(off.origin[2]) or {}).get("local") and off.origin[2]["args"]:
+                        ev = trace(cn, off.origin[2]["args"][0])
+                        ok = bool(ev.origin and ev.origin[0] == "call" and _is_parser_poll(lib, cn, ev.origin[2]) and cn.local_ty(off.origin[2]["dest"]["l"]) == "u64")
                 done = True
                 ctx.ob("document-end-takes-chunk", ok, site(cn, calls[0][0]) if calls else site(cn), "on DOCUMENT_END the captured bytes up to the event's end offset are moved out of the buffer" if ok else "the capture buffer is not emptied at the end of a document: it grows with the stream")
     if not done:
         ctx.ob("document-end-takes-chunk", False, site(cn), "no arm for YAML_DOCUMENT_END_EVENT found")
     # the loop polls the parser once per iteration and does not retain events
-    pe = [(bb, t) for bb, t in cn.calls() if (fn_of(t) or {}).get("name") == "next_event"]
+    pe = [(bb, t) for bb, t in cn.calls() if _is_parser_poll(lib, cn, t)]
     ctx.ob("one-parser-poll-per-iteration", len(pe) == 1 and cn.on_cycle(pe[0][0]), site(cn), "events are consumed one at a time")
